@@ -783,7 +783,7 @@ def oracle(case):
 
 def desc_strategy(view):
     # inf only where the statement's "always strict JSON" bites; the other views say nothing about infinities
-    return LB.las_desc(inf=(view == "json"), p_text=4, p_empty=1, drops=True)
+    return LB.las_desc(inf=(view == "json"), p_text=4, p_empty=1, drops=True, extra_kinds=(("o", "i") if view == "json" else ()))
 
 
 @st.composite
